@@ -98,7 +98,7 @@ def install_externals(X):
     @X.register("numpy.nanmin")
     def _(interp, args, kwargs):
         i = _arr_id(args[0])
-        interp.note_assumption("np.nanmin/np.nanmax return the finite extreme of the non-NaN elements (NaN iff all are NaN)")
+        interp.note_assumption("np.nanmin/np.nanmax return the finite extreme of the non-NaN elements (NaN iff all are NaN); data reaching Image.save contain no +-inf")
         return FPix(NanMinN(i), NanMinV(i))
 
     @X.register("numpy.nanmax")
@@ -106,13 +106,8 @@ def install_externals(X):
         i = _arr_id(args[0])
         return FPix(NanMaxN(i), NanMaxV(i))
 
-    @X.register("numpy.isfinite")
-    def _(interp, args, kwargs):
-        v = args[0]
-        interp.note_assumption("data contain no +-inf (np.isfinite(x) == not isnan(x))")
-        if isinstance(v, FPix):
-            return ops.negate(v.nan)
-        return True
+    # np.isfinite is modelled in pyvc/ndarray.py (NaN and infinity flags); the extreme returned by nanmin/nanmax
+    # carries no infinity flag: assumed finite or NaN
 
     @X.register("astropy.io.fits.Header")
     def _(interp, args, kwargs):
